@@ -3,6 +3,7 @@ import json
 import os
 import time
 
+import re
 import z3
 
 from mirsym.exec import Exec, State, Event
@@ -876,8 +877,78 @@ def c18_loop_by_loop(ck, P, tier, seed):
     return ck.finish()
 
 
+# system calls of the client's open path: each returns after work bounded by the file itself (no dependence on another process)
+OPEN_PATH_ALLOWED = {'open', 'open64', 'openat', 'read', 'pread', 'pread64', 'mmap', 'mmap64', 'munmap', 'close', 'fstat', 'fstat64', 'lseek', 'lseek64', '__errno_location', 'madvise'}
+# calls that wait for another process (a lock holder, a peer, a timer): a stopped or dead daemon can hold them for ever
+WAITS_FOR_ANOTHER_PROCESS = re.compile(r'^(flock|lockf|fcntl|fcntl64|poll|ppoll|select|pselect|epoll_wait|epoll_pwait|nanosleep|clock_nanosleep|sleep|usleep|wait|waitpid|wait4|sem_wait|sem_timedwait|'
+                                       r'pthread_mutex_lock|pthread_cond_wait|pthread_rwlock_rdlock|pthread_rwlock_wrlock|mq_receive|recv|recvfrom|recvmsg|accept|accept4|connect|futex|sigwait|pause|msgrcv|semop)$')
+
+
+def open_path_blocking(ck, seed):
+    """C18 on the path every client call starts with (ShmReader::new, also behind clockbound_open / ClockBoundClient::new): the system
+    calls it can reach are read from its MIR; none may be one that waits for another process.  Whatever the symbolic part finds, the
+    real ShmReader::new + snapshot() is run in a child process against a segment file on which ANOTHER process holds an exclusive
+    lock (flock / POSIX record lock / OFD lock), as a daemon stopped inside a locked region would: it must return."""
+    from .segment_files import OpenModel
+    from .client_now import load_shm_program
+    from mirsym.exec import Event
+    seen = {}
+    outs = None
+    try:
+        prog, _w = load_shm_program()
+        om = OpenModel(prog)
+
+        def h_other(ex, st, callee, args, fn):
+            # a foreign (libc) function the open-path model has no semantics for: recorded, arbitrary result
+            name = callee.strip().rsplit('::', 1)[-1]
+            seen[name] = seen.get(name, 0) + 1
+            st.trace = st.trace + (Event('syscall:' + name, tuple(a for a in args if isinstance(a, z3.ExprRef)), None),)
+            return ex.fresh('ret_' + name)
+        outs = om.run(extra_env=[(r'^libc::(?!open$|read$|mmap$|close$|munmap$)[a-z_0-9]+$', h_other)])
+    except EngineError as e:
+        ck.inconclusive.append('open path (ShmReader::new) not executable: %s' % e)
+    calls = set(seen)
+    if outs is not None:
+        for o in outs:
+            for e in o.state.trace:
+                if e.kind.startswith('syscall:'):
+                    calls.add(e.kind[8:])
+                elif e.kind in ('open', 'read', 'mmap', 'close', 'munmap'):
+                    calls.add(e.kind)
+    waits = sorted(c for c in calls if WAITS_FOR_ANOTHER_PROCESS.match(c))
+    unknown = sorted(c for c in calls if c not in OPEN_PATH_ALLOWED and not WAITS_FOR_ANOTHER_PROCESS.match(c))
+    pr = Prover(seed)
+    T = z3.BoolVal(True)
+    if outs is not None:
+        pr.prove('open path (ShmReader::new, %d paths): the system calls reached are %s: none waits for another process' % (len(outs), sorted(calls)), T, z3.BoolVal(not waits), need_reach=False)
+        if unknown:
+            ck.inconclusive.append('open path reaches system calls this check has no classification for: %s' % unknown)
+    ck.cov['open_path_system_calls'] = sorted(calls)
+    # native, standing
+    rp = common.Replay('debug')
+    runs = []
+    hung = None
+    for kind in ('flock', 'posix', 'ofd', 'none'):
+        out = rp.ask('openlocked %s 3000' % kind)
+        runs.append({'lock_held_by_another_process': kind, 'out': out[:160]})
+        ck.cov['evaluations'] += 1
+        if out.startswith('ok hung') and hung is None:
+            hung = (kind, out)
+    rp.close()
+    ck.cov['native_open_under_lock'] = runs
+    if hung:
+        kind, out = hung
+        ck.violation('open-blocks-on-lock', 'another process (a daemon stopped - not dead - at that point) holds an exclusive %s lock on the segment file: a client\'s ShmReader::new() had not returned 3000 ms later (it waits for that process for as long as it stays stopped)%s'
+                     % ({'flock': 'flock()', 'posix': 'POSIX record', 'ofd': 'open-file-description'}[kind], ('; blocking calls on the open path: %s' % waits) if waits else ''), {'cmd': 'openlocked %s 3000' % kind, 'native': out})
+        pr.handled = {n for n, m in pr.failed}
+    ck.absorb(pr)
+    if waits and not hung:
+        ck.inconclusive.append('the open path can reach %s (waits for another process) but the native runs under a held lock returned' % waits)
+
+
 def check_c18(tier, seed):
     ck = Check('C18', tier, seed)
+    open_path_blocking(ck, seed)
     P = Programs(tolerate_reader_loops=True)
     if P.snap is None:
         ck.cov['functions_encoded'] = ['ShmReader::snapshot (loop by loop)', 'ShmReader::new']
@@ -1013,6 +1084,40 @@ def header_validity(P, seed):
     return dict(vars=(m0, m1, seg, ver, gen), pc=pc, val=val, dom=dom, side=list(ex.side), ex=ex)
 
 
+def restart_chain_native(ck):
+    """standing native scenario: a valid published segment (even or odd generation) goes through three daemon starts with no
+    publication in between (each daemon dies before its first write).  Clause (c): taken over in place every time, so the
+    generation and the record must be the ones of the last publication; the version must be one attached readers accept."""
+    import struct
+    from .segment_files import MAGIC0, MAGIC1
+    bad = []
+    outs = []
+    for gen in (2, 7, 65534):
+        hdr = struct.pack('<IIIHH', MAGIC0, MAGIC1, 72, 1, gen)
+        rec = struct.pack('<qqqqqIIiI', 11, 22, 33, 44, 55, 66, 0, 1, 0)
+        cur = (hdr + rec).hex()
+        rp = common.Replay('debug')
+        chain = []
+        for k in range(3):
+            out = rp.ask('recreate ' + cur)
+            chain.append(out)
+            f = dict(x.split('=', 1) for x in out.split()[1:] if '=' in x) if out.startswith('ok') else {}
+            if not f.get('bytes'):
+                bad.append('start %d over a valid segment (generation %d) failed: %s' % (k + 1, gen, out[:80])); break
+            nb = bytes.fromhex(f['bytes'])
+            if nb[14:] != (hdr + rec)[14:] or nb[:12] != hdr[:12]:
+                bad.append('daemon start %d in a row without a publication (generation %d): segment not taken over in place, generation/record now %s... (was %s...)' % (
+                    k + 1, gen, nb[14:40].hex(), (hdr + rec)[14:40].hex())); break
+            cur = f['bytes']
+        rp.close()
+        outs.append({'generation': gen, 'chain': [c[:60] for c in chain]})
+    ck.cov['native_restart_chain'] = outs
+    ck.cov['evaluations'] += 9
+    if bad:
+        ck.violation('restart-chain', bad[0], {'cmd': 'recreate (three starts in a row)', 'native': outs, 'all': bad})
+    return bad
+
+
 def usable_clause(ck, P, pr, seed):
     from .segment_files import OpenModel, MAGIC0, MAGIC1
     prog = P.prog
@@ -1059,11 +1164,27 @@ def usable_clause(ck, P, pr, seed):
                        z3.And(o.state.pcond(), after_crash), okc, confirm, lambda m: [], hints=[[om.gen == 3], [om.gen == 2]])
 
 
+def segment_layer_part(ck, seed):
+    """for C01 (the pipeline's middle layer, across a daemon crash and restart): what a client call obtains from the segment is one
+    complete record the daemon published, never a mixture and never a record whose update was cut short - also when the writer is
+    killed at any point of an update and a new writer starts on the same segment while the client keeps calling"""
+    P = Programs()
+    tasks = crash_restart_tasks(ck, P, [(1, 1)], ck.tier)
+    ck.cov.setdefault('functions_encoded', [])
+    ck.cov['functions_encoded'] = list(ck.cov['functions_encoded']) + ['ShmWrite::write, ShmWriter::new (restart), ShmReader::snapshot: crash at any event of an update, restart, concurrent reader (engine W)']
+    return run_tasks(ck, tasks, seed)
+
+
 def check_c04(tier, seed):
     ck = Check('C04', tier, seed)
     P = Programs()
     base_cov(ck, P)
     cfgs = [(1, 1)] if tier == 'quick' else [(1, 1), (2, 1), (1, 2)]
+    tasks = crash_restart_tasks(ck, P, cfgs, tier)
+    return check_c04_rest(ck, P, tasks, cfgs, tier, seed)
+
+
+def crash_restart_tasks(ck, P, cfgs, tier):
     tasks = []
     for a_pubs, b_pubs in cfgs:
         sc = Scenario(P, 'c04a%db%d' % (a_pubs, b_pubs)); sc.init_classes(('A', 'C'))
@@ -1124,6 +1245,10 @@ def check_c04(tier, seed):
         tasks.append(Task('crash after the first generation store, before any record word', sc, fin + [crash == 2, outs[0]['ok']], 'witness'))
         tasks.append(Task('crash with a strict subset of the record words written', sc, fin + [crash > 3, crash < last - first, q['ok']], 'witness'))
         tasks.append(Task('reader accepts a publication of the restarted writer', sc, fin + [outs[1]['ok'], outs[1]['rec'][0] == N], 'witness'))
+    return tasks
+
+
+def check_c04_rest(ck, P, tasks, cfgs, tier, seed):
     # a segment left unusable (wiped: version 0, generation 0) by a daemon that died during start-up: the restarted daemon
     # wipes again, maps, stores the version, publishes; a NEW client attaching after that publication reads it back.
     # (No client can have been attached to a segment that was never valid, so the reader here is a fresh one.)
@@ -1177,8 +1302,11 @@ def check_c04(tier, seed):
             if has_wipe:
                 pr.prove('after a wipe, mapping and version store still follow', pc, z3.BoolVal(names.index('wipe') < names.index('mmap_segment_at')), need_reach=False)
     ck.absorb(pr)
+    chain_bad = restart_chain_native(ck)
     if pr.failed:
         for name, mm in pr.failed:
+            if chain_bad and 'layout version' in name:
+                continue
             ck.inconclusive.append('usability clause failed in the encoding (no native replay wired for it): ' + name[:120])
     ck.cov['bounds'] = {'(updates before the crash, updates after the restart)': cfgs, 'crash': 'after any event of the interrupted update, any subset of its record words',
                         'reader': '2 concurrent calls + 1 call ordered after everything, any reader state satisfying the history invariant', 'retry_loop_unrolling': 'R = 2N+1',
